@@ -239,7 +239,10 @@ def drain (m : Map) (take : Nat) (forget : Bool) (o : Orc) : Except Fault (Map Ã
     if forget then
       -- the main table's allocation stays with the forgotten `RawDrain`; the map keeps `NEW`.
       -- A forgotten old-table `RawIntoIter` leaks the old table as well.
-      .ok ({ main := HB.new, lo := none }, { ret := .ents yielded, returned := idsOf yielded })
+      -- (the old table's iterator is released by the first `next()` after its last element)
+      let nOld := match m.lo with | some ol => ol.cursor | none => 0
+      .ok ({ main := HB.new, lo := none },
+           { ret := .ents yielded, cost := if nOld < take then oldFree else {}, returned := idsOf yielded })
     else
       .ok ({ main := m.main.clearNoDrop, lo := none },
            { ret := .ents yielded, cost := oldFree + { dropped := idsOf restE ++ idsOf uncovered },
